@@ -18,6 +18,16 @@ def events(ctx):
             yield record("pdu.fac", {"kind": k, "cfg": cfg, "p": p, "sfx": []})
             if rng.random() < 0.15:
                 yield record("holder.matrix", {"kind": k, "cfg": cfg, "p": p})
+    # held PDUs whose CONTENTS look like format strings (braces, percent signs) - file data that is JSON, a checksum with
+    # 0x7B / 0x7D: the holder's refusals are about the kind of the PDU, not about what it carries
+    cfg = {"crc": 0, "large": 0, "mode": 0, "segctrl": 0, "dir": 0, "src": [1], "dst": [2], "seq": [3]}
+    for data in (list(b'{"k": [1]}'), list(b"{}"), list(b"%s %d {0.x}"), list(b"{")):
+        yield record("holder.matrix", {"kind": "filedata", "cfg": cfg, "p": {"offset": [0], "data": data, "meta": []}})
+        yield record("holder.matrix", {"kind": "filedata", "cfg": cfg, "p": {"offset": [0], "data": [1], "meta": [{"state": 1, "md": data[:20]}]}})
+    for ck in ([123, 125, 123, 125], [37, 115, 123, 48], [123, 48, 46, 120]):
+        yield record("holder.matrix", {"kind": "eof", "cfg": cfg, "p": {"cond": 0, "checksum": ck, "size": [9], "fault": []}})
+    yield record("holder.matrix", {"kind": "metadata", "cfg": cfg, "p": {"closure": 1, "cktype": 0, "size": [9], "srcname": list(b"{a}"),
+                                                                        "dstname": list(b"{0.x}"), "options": []}})
 
 
 def run(ctx):
